@@ -180,6 +180,8 @@ def table():
                 cells.append("**%s** %s (%s)" % (prop, tier, ", ".join(conds[:3]) or "violation"))
             else:
                 cells.append("%s %s: %s" % (prop, tier, "harness error" if v["exit"] == 2 else "missed"))
+        if m.get("confirmed") is False:
+            cells.append("*superseded by a later repair: verdict recorded when it was seeded (note in meta.json)*")
         print("| %s | %s | %s | %s |" % (sid, m["property"], summary.replace("|", "/"), "; ".join(cells)))
 
 
